@@ -139,6 +139,23 @@ def _run_unit(args):
                 notes=ctx.notes, assumptions=sorted(ctx.assumptions), wall_s=round(time.time() - t0, 3))
 
 
+def _model_floats(model):
+    from fractions import Fraction
+    out = {}
+    for k, v in model.items():
+        try:
+            if isinstance(v, bool):
+                out[k] = v
+            elif isinstance(v, (int, float)):
+                out[k] = float(v)
+            elif isinstance(v, str):
+                w = v.lstrip("~").rstrip("?")
+                out[k] = float(Fraction(w)) if "/" in w else float(w)
+        except (ValueError, ZeroDivisionError, OverflowError):
+            pass
+    return out
+
+
 def tree_hash():
     try:
         h = subprocess.run(["git", "-C", REPO, "rev-parse", "HEAD"], capture_output=True, text=True).stdout.strip()
@@ -223,8 +240,11 @@ def run_property(prop, tier="quick", seed=0, only=None, jobs=None):
             confirmed, native = None, None
             if o.get("replay"):
                 try:
+                    o["replay"] = dict(o["replay"])
+                    o["replay"].setdefault("point", _model_floats(o.get("model") or {}))
                     native = run_native("replay.py", o["replay"], timeout=600)
-                    confirmed = bool(native.get("confirmed"))
+                    confirmed = native.get("confirmed")
+                    confirmed = None if confirmed is None else bool(confirmed)
                 except Exception as e:
                     native = {"error": str(e)[-1500:]}
             payload = dict(property=prop, obligation=o["id"], function=o["function"], clause=o.get("clause"),
